@@ -436,6 +436,7 @@ def run(ctx: RuleContext, p: Program) -> None:
     ctx.try_rule(rule_view_write, p, 'VIEW-WRITE')
     ctx.try_rule(rule_view_snapshot, p, 'VIEW-SNAPSHOT')
     ctx.try_rule(rule_cache_dep, p, 'CACHE-DEP')
+    ctx.try_rule(rule_map_first, p, 'MAP-FIRST')
     from . import presence
     ctx.try_rule(presence.rule_presence_truth, p, 'PRESENCE-TRUTH')
     ctx.not_decided += ['Python list semantics for every index / slice of each view', 'ordered-dict / first-match semantics of '
@@ -691,3 +692,207 @@ def rule_cache_dep(ctx: RuleContext, p: Program, rid: str) -> None:
                               f'memoised wrapper property', c.where, note=f'inner {t.kind.name if isinstance(t, DescriptorDecl) else "?"}', nontrivial=False)
     if n < 10:
         raise AnalysisError(f'CACHE-DEP: only {n} cached properties / rebinding setters found')
+
+
+# ====================================================================== MAP-FIRST (added after seeded round 3)
+def rule_map_first(ctx: RuleContext, p: Program, rid: str) -> None:
+    """finite-domain evaluation of the key-addressed methods of the two meta mapping views"""
+    import itertools
+    from . import possem
+    from .tokenstore import TS
+    ctx.rule(rid, 'the key-addressed methods of the meta mapping views (__getitem__, __setitem__, __delitem__, pop, __contains__ with a '
+                  'str key), interpreted from their ASTs over every key layout of up to 3 items (duplicates included): each addresses the '
+                  'FIRST item carrying the key -- the one reads return -- appends when the key is absent (set), and raises KeyError / '
+                  'returns the default otherwise; all five agree on which item a key means')
+    m = p.module('models.meta_item_internal')
+    ts = TS(p)
+    wrappers = [p.cls('RepeatedRawMetaItemWrapper', 'models.meta_item_internal'), p.cls('RepeatedMetaItemWrapper', 'models.meta_item_internal')]
+    n = 0
+
+    class Interp(possem.PosInterp):
+        tag = 'MAP-FIRST'
+
+        def __init__(self, items: list, wrapper: Any) -> None:
+            super().__init__(ts, [], module=m)
+            self.items = items
+            self.wrapper = wrapper
+            self.events: list = []
+
+        def iter_of(self, v: Any, node: Any) -> list:
+            if v is self.wrapper:
+                return list(self.items)
+            return super().iter_of(v, node)
+
+        def expr(self, e: Any, env: dict) -> Any:                 # type: ignore[override]
+            if isinstance(e, ast.Name) and e.id not in env:
+                if e.id == '_EMPTY':
+                    return possem.Obj('_Empty', {}, 'EMPTY')
+                if e.id in ('_Empty', 'MetaItem', 'KeyError'):
+                    return possem.ClassRef(e.id)
+                if e.id == 'str':
+                    return possem.Builtin('str')
+            if isinstance(e, ast.Attribute) and norm(e) in ('base.RawModel', 'base.RawTokenModel'):
+                return possem.ClassRef('RawModel')
+            if isinstance(e, ast.Call) and isinstance(e.func, ast.Attribute):
+                f = e.func
+                # super().<method>(...) : the positional list operations of the underlying sequence
+                if isinstance(f.value, ast.Call) and norm(f.value.func) == 'super':
+                    args = [self.expr(a, env) for a in e.args]
+                    return self.seq_op(f.attr, args, e)
+                if isinstance(f.value, ast.Name) and env.get(f.value.id) is self.wrapper:
+                    args = [self.expr(a, env) for a in e.args]
+                    if f.attr in ('append', '__getitem__', '__setitem__', '__delitem__', 'pop', 'insert', '__contains__'):
+                        if f.attr in ('__getitem__', '__setitem__', '__delitem__', 'pop', '__contains__') and args and isinstance(args[0], str):
+                            fn = self.wrapper_cls.lookup(f.attr)
+                            return self.call_function(fn, [self.wrapper] + args, {})
+                        return self.seq_op(f.attr, args, e)
+                    if f.attr == '_get_indent':
+                        return 'INDENT'
+                    if f.attr == 'index':
+                        return self.items.index(args[0])
+                if norm(f) in ('MetaItem.from_value',):
+                    args = [self.expr(a, env) for a in e.args]
+                    return possem.Obj('MetaItem', {'key': args[0], 'value': args[1]}, 'created')
+            if isinstance(e, ast.Call) and isinstance(e.func, ast.Name) and e.func.id == 'isinstance' and e.func.id not in env:
+                v = self.expr(e.args[0], env)
+                c = self.expr(e.args[1], env)
+                if isinstance(c, possem.ClassRef):
+                    if c.name == 'RawModel':
+                        return isinstance(v, possem.Obj) and v.cls == 'Value' and v.f.get('model', False)
+                    return isinstance(v, possem.Obj) and v.cls == c.name
+                if isinstance(c, possem.Builtin):
+                    return isinstance(v, {'str': str, 'int': int, 'list': list, 'tuple': tuple, 'dict': dict}[c.name]) and not isinstance(v, bool)
+            if isinstance(e, ast.Subscript) and not isinstance(e.slice, ast.Slice):
+                b = self.expr(e.value, env)
+                if b is self.wrapper:
+                    i = self.expr(e.slice, env)
+                    if isinstance(i, str):
+                        return self.call_function(self.wrapper_cls.lookup('__getitem__'), [self.wrapper, i], {})
+                    return self.seq_op('__getitem__', [i], e)
+            return super().expr(e, env)
+
+        def stmt(self, st: Any, env: dict) -> None:                # type: ignore[override]
+            if isinstance(st, ast.Raise):
+                raise possem.Raised(norm(st.exc.func) if isinstance(st.exc, ast.Call) else norm(st.exc) if st.exc is not None else 'raise')
+            if isinstance(st, ast.Assign) and len(st.targets) == 1 and isinstance(st.targets[0], ast.Subscript) \
+                    and self.expr(st.targets[0].value, env) is self.wrapper:
+                i = self.expr(st.targets[0].slice, env)
+                v = self.expr(st.value, env)
+                if isinstance(i, str):
+                    self.call_function(self.wrapper_cls.lookup('__setitem__'), [self.wrapper, i, v], {})
+                else:
+                    self.seq_op('__setitem__', [i, v], st)
+                return
+            if isinstance(st, ast.Delete) and len(st.targets) == 1 and isinstance(st.targets[0], ast.Subscript) \
+                    and self.expr(st.targets[0].value, env) is self.wrapper:
+                self.seq_op('__delitem__', [self.expr(st.targets[0].slice, env)], st)
+                return
+            super().stmt(st, env)
+
+        def seq_op(self, name: str, args: list, node: Any) -> Any:
+            items = self.items
+            if name == 'append':
+                self.events.append(('append', args[0]))
+                items.append(args[0])
+                return None
+            if name == '__contains__':
+                return any(x is args[0] for x in items)
+            i = args[0]
+            if not isinstance(i, int) or isinstance(i, bool):
+                raise self.err(node, f'positional operation {name} with index {i!r}')
+            if not -len(items) <= i < len(items):
+                raise possem.Raised('IndexError')
+            i %= len(items)
+            if name == '__getitem__':
+                return items[i]
+            if name == '__setitem__':
+                self.events.append(('replace', i, args[1]))
+                items[i] = args[1]
+                return None
+            if name == '__delitem__':
+                self.events.append(('delete', i))
+                del items[i]
+                return None
+            if name == 'pop':
+                self.events.append(('delete', i))
+                return items.pop(i)
+            if name == 'insert':
+                self.events.append(('insert', i, args[1]))
+                items.insert(i, args[1])
+                return None
+            raise self.err(node, f'sequence operation {name}')
+
+    def run_case(w: Any, method: str, keys: tuple, key: str) -> Optional[str]:
+        nonlocal n
+        fn = w.lookup(method)
+        if not isinstance(fn, FuncInfo) or fn.cls not in wrappers:
+            return None
+        items = [possem.Obj('MetaItem', {'key': k, 'value': possem.Obj('Value', {'model': False, 'token_store': None}, f'v{i}')}, f'item{i}')
+                 for i, k in enumerate(keys)]
+        before = list(items)
+        wrapper = possem.Obj(w.name, {}, 'wrapper')
+        it = Interp(items, wrapper)
+        it.wrapper_cls = w
+        newv = possem.Obj('Value', {'model': False, 'token_store': None}, 'new')
+        args: list = [wrapper, key]
+        if method == '__setitem__':
+            args.append(newv if w is wrappers[1] else possem.Obj('MetaItem', {'key': key, 'value': newv}, 'newitem'))
+        n += 1
+        raised = None
+        res = None
+        try:
+            res = it.call_function(fn, args, {})
+        except possem.Raised as ex:
+            raised = str(ex)
+        first = next((i for i, k in enumerate(keys) if k == key), None)
+        where_ = f'keys {list(keys)}, key {key!r}'
+        value_view = w is wrappers[1]
+        if method == '__contains__':
+            return None if (res is True) == (first is not None) and raised is None else f'{where_}: `key in view` gives {res!r}'
+        if first is None:
+            if method == '__setitem__':
+                ok = raised is None and len(it.events) == 1 and it.events[0][0] == 'append' and len(items) == len(keys) + 1 \
+                    and items[-1].f.get('key') == key and items[:-1] == before
+                return None if ok else f'{where_}: assigning an absent key does not append exactly one item with that key ({it.events}, raised {raised})'
+            ok = raised is not None and 'KeyError' in raised and not it.events
+            return None if ok else f'{where_}: an absent key gives {res!r} / {raised} with effects {it.events} instead of KeyError'
+        if raised is not None:
+            return f'{where_}: raises {raised} although item {first} has the key'
+        if method == '__getitem__':
+            want = before[first].f['value'] if value_view else before[first]
+            return None if res is want and not it.events else f'{where_}: reads {res!r}, the first item with the key is item{first}'
+        if method == '__setitem__':
+            if value_view:
+                ok = not it.events and before[first].f['value'] is newv and all(b.f['value'] is not newv for j, b in enumerate(before) if j != first)
+                hit = [j for j, b in enumerate(before) if b.f['value'] is newv]
+                return None if ok else f'{where_}: the value is written to item(s) {hit}, reads address item {first} (the first with that key)'
+            ok = it.events == [('replace', first, args[2])]
+            return None if ok else f'{where_}: effects {[(e[0], e[1]) for e in it.events]}, expected the replacement of item {first}'
+        if method in ('__delitem__', 'pop'):
+            ok = [e[:2] for e in it.events if e[0] == 'delete'] == [('delete', first)] and len(it.events) == 1
+            if ok and method == 'pop':
+                want = before[first].f['value'] if value_view else before[first]
+                ok = res is want
+            return None if ok else f'{where_}: removes {[e[1] for e in it.events if e[0] == "delete"]} and returns {res!r}; the first item with the key is item {first}'
+        return None
+
+    layouts = [ks for k in range(0, 4) for ks in itertools.product('ab', repeat=k)]
+    for w in wrappers:
+        for method in ('__getitem__', '__setitem__', '__delitem__', 'pop', '__contains__'):
+            problem = None
+            cnt = 0
+            for keys in layouts:
+                for key in ('a', 'z'):
+                    pr = run_case(w, method, keys, key)
+                    cnt += 1
+                    if pr and problem is None:
+                        problem = pr
+            fnm = w.lookup(method)
+            if not isinstance(fnm, FuncInfo) or fnm.cls not in wrappers:
+                continue
+            ctx.check(problem is None, rid, f'models.meta_item_internal:{w.name}.{method}', 'first match',
+                      f'{w.name}.{method}(key): {problem}: the methods of one mapping view disagree on which of several items with the same key '
+                      f'a key means (first-match is what reads use), so writing through a key changes a different meta line than the one read back',
+                      fnm.where, note=f'{cnt} layouts x keys')
+    if n < 200:
+        raise AnalysisError(f'MAP-FIRST: only {n} cases evaluated')
